@@ -70,6 +70,7 @@ type Run struct {
 	faultedMod map[uint64]bool
 	Taints    map[uint64]string // UP SEID -> first known-finding trigger applied to the session
 	sharedTaint string
+	noTaintFallback bool
 	returned   map[int]*bool
 }
 
